@@ -467,7 +467,7 @@ def list_method(E, m, args, kwargs):
     rest = args[1:]
     if m == 'append':
         h.items.append(rest[0])
-        E.trace.append(('list_append', ref.addr, repr(rest[0])))
+        E.trace.append(('list_append', ref.addr, repr(rest[0]), rest[0]))
         return NONE
     if m == 'extend':
         h.items.extend(iter_items(E, rest[0]))
@@ -536,7 +536,15 @@ def dict_method(E, m, args, kwargs):
             for k, v in E.heap[src.addr].entries:
                 ops.dict_set(E, d, k, v)
             return NONE
-        raise Unsupported('dict.update from unknown mapping')
+        # update from a mapping of unknown contents: afterwards nothing is known about d
+        if isinstance(src, VO):
+            ops.opaque_op_may_raise(E, 'dict.update')
+        d.entries = []
+        d.base = E.fresh('dict')
+        d.has_cache = {}
+        d.val_cache = {}
+        d.deleted = set()
+        return NONE
     if m == 'copy':
         return E.alloc(d.clone())
     if m == 'setdefault':
@@ -705,7 +713,7 @@ TABLE = {
     'id': bi_id,
     'sum': bi_sum,
     'exec': bi_unsupported('exec'),
-    'eval': bi_unsupported('eval'),
+    'eval': lambda E, a, k, n: __import__('pyvc.library', fromlist=['py_eval']).py_eval(E, a, k, n),
     'open': bi_unsupported('open'),
     'sorted': bi_unsupported('sorted'),
     'object.__str__': lambda E, a, k, n: E.to_str(a[0]),
